@@ -128,7 +128,7 @@ def extract(facts_dir, extra_args=()):
     return r.stdout.strip().splitlines()[-1]
 
 
-def run_property(prop, tier, seed, facts_dir=None, do_extract=True, quiet=False, extract_args=()):
+def run_property(prop, tier, seed, facts_dir=None, do_extract=True, quiet=False, extract_args=(), write=True, label=None):
     t0 = time.time()
     mod = importlib.import_module("uecheck.rules_" + prop.lower())
     if facts_dir is None:
@@ -224,15 +224,13 @@ def run_property(prop, tier, seed, facts_dir=None, do_extract=True, quiet=False,
         "wall_s": round(time.time() - t0, 3),
         "violations": len(viols),
     }
-    os.makedirs(ev_dir, exist_ok=True)
-    with open(os.path.join(ev_dir, prop + ".json"), "w") as f:
-        json.dump(ev, f, indent=1, sort_keys=False)
-        f.write("\n")
+    if write:
+        write_evidence(ev_dir, prop, ev)
 
     # report -------------------------------------------------------------
     if not quiet:
-        print("%s tier=%s: %d obligations, %d discharged, %d violations, %d known findings, %d functions analysed (%.1fs)" % (
-            prop, tier, n_ob, n_ok, len(viols), len(knowns), len(ctx.fns_analysed) if ctx else 0, time.time() - t0))
+        print("%s tier=%s%s: %d obligations, %d discharged, %d violations, %d known findings, %d functions analysed (%.1fs)" % (
+            prop, tier, (" [" + label + "]") if label else "", n_ob, n_ok, len(viols), len(knowns), len(ctx.fns_analysed) if ctx else 0, time.time() - t0))
         for r, v in sorted(per_rule.items()):
             print("  %-28s %4d instances, %4d ok" % (r, v["instances"], v["ok"]))
     for o, k in knowns:
@@ -246,7 +244,16 @@ def run_property(prop, tier, seed, facts_dir=None, do_extract=True, quiet=False,
                        "at": o["at"], "rule_text": meta.get("rules", {}).get(o["rule"], "")}, f, indent=1)
         print("  violation %s at %s: %s" % (o["full_key"], o["at"], o["detail"][:1500]))
         print("VIOLATION property=%s replay=%s" % (prop, path))
-    return 1 if viols else 0
+    if write:
+        return 1 if viols else 0
+    return (1 if viols else 0), ev
+
+
+def write_evidence(ev_dir, prop, ev):
+    os.makedirs(ev_dir, exist_ok=True)
+    with open(os.path.join(ev_dir, prop + ".json"), "w") as f:
+        json.dump(ev, f, indent=1, sort_keys=False)
+        f.write("\n")
 
 
 def main(argv=None):
